@@ -41,15 +41,13 @@ func RegistPullStreamFactory(f PullStreamFactory) {
 
 // Regist 注册流
 func Regist(s *Stream) {
-	// 获取同 path 的现有流
-	oldSI, ok := streams.Load(s.path)
+	// 原子地换入新流并取得同 path 的现有流：并发注册时每个被换下的旧流都有人负责退役
+	oldSI, ok := streams.Swap(s.path, s)
 	if s == oldSI { // 如果是同一个源
 		return
 	}
 
-	// 设置新流
 	vhook.At("regist.loaded", s)
-	streams.Store(s.path, s)
 	vhook.At("regist.stored", s)
 
 	// 如果存在旧流
